@@ -123,13 +123,13 @@ let norm_line line = p_doc (normalize_doc (to_doc (sx_parse line)))
 let nspans_line line = match al (sx_parse line) with
   | [A c; d] -> String.concat ";" (List.map p_span (doc_spans_u (c <> 0) (normalize_doc (to_doc d))))
   | _ -> "ERR"
-(* (doc ((kind target text) ...)) -> "applied skipped|doc"; kind 0 ACCEPT 1 REJECT 2 REPLY (REPLY: not modelled here -> skipped) *)
+(* (doc author ts ((kind target text) ...)) -> "applied skipped|doc"; kind 0 ACCEPT 1 REJECT 2 REPLY *)
 let review_line line = match al (sx_parse line) with
-  | [d; L acts] ->
+  | [d; au; ts; L acts] ->
     let acts = List.map (fun a -> match al a with
       | [A k; t; x] -> { a_kind = (match k with 0 -> AAccept | 1 -> AReject | _ -> AReply); a_target = to_str t; a_text = to_str x }
       | _ -> failwith "act") acts in
-    let ((d', ap), sk) = apply_actions (fun d _ _ -> (d, false)) (to_doc d) acts in
+    let ((d', ap), sk) = review_session (to_doc d) (to_str au) (to_str ts) acts in
     Printf.sprintf "%d %d|%s" (int_of_nat ap) (int_of_nat sk) (p_doc d')
   | _ -> "ERR"
 let acceptall_line line = p_doc (accept_all_doc (to_doc (sx_parse line)))
